@@ -163,8 +163,8 @@ Qed.
 
 Lemma run_input_acurs f now s i t : f_acc_hist f = true -> now <= t -> ACurS s t -> ACurS (outcome_state (run_input f now s i) s) t.
 Proof.
-  intros Fh Hnow HC. unfold ACurS in *. destruct i as [ps ts ref md amd force | id force at_eff rmeta | [a|id] md | [a|id] k]; simpl.
-  - destruct ps as [|p ps']; [exact HC|].
+  intros Fh Hnow HC. unfold ACurS in *. script_split i.
+  { simpl. unfold create_tx. destruct ps as [|p ps']; [exact HC|].
     destruct (feasible force (s_vols s) (p :: ps')); simpl; [|exact HC].
     destruct (commit_transaction f now s (p :: ps') md ts ref) as [s1 [x|]] eqn:E; simpl.
     + pose proof (commit_some _ _ _ _ _ _ _ _ _ E) as (_ & _ & _ & _ & _ & _ & _ & Hins & _ & _ & _ & _ & _ & Ha & Hh & _).
@@ -173,7 +173,9 @@ Proof.
       cbn [fst snd] in G. specialize (G Hnow).
       assert (Hd : forall d, Some now = Some d -> d <= t) by (intros d Ed; inversion Ed; subst; exact Hnow).
       specialize (G Hd Hd HC). destruct (fold_left _ _ (s_accounts s, s_ahist s)) as [a1 h1]. exact G.
-    + pose proof (commit_none _ _ _ _ _ _ _ _ E) as (_ & _ & _ & Ha & Hh & _). rewrite Ha, Hh. exact HC.
+    + pose proof (commit_none _ _ _ _ _ _ _ _ E) as (_ & _ & _ & Ha & Hh & _). rewrite Ha, Hh. exact HC. }
+  destruct i as [ps ts ref md amd force | id force at_eff rmeta | [a|id] md | [a|id] k | ps ts ref md amd force smd samd];
+    [apply Hc | | | | | | script_bullet Hc]; simpl.
   - destruct (find_tx (s_txs s) id) as [x|]; [|exact HC].
     destruct (t_rev x); [exact HC|].
     match goal with |- context [match ?c with RCOk => _ | RCInsufficient => _ | RCPanic => _ end] => destruct c end;
@@ -235,8 +237,8 @@ Qed.
 
 Lemma run_input_ahist_ext f now s i t : t < now -> ahist_ext t s (outcome_state (run_input f now s i) s).
 Proof.
-  intros Hnow. destruct i as [ps ts ref md amd force | id force at_eff rmeta | [a|id] md | [a|id] k]; simpl.
-  - destruct ps as [|p ps']; [apply ahist_ext_refl|].
+  intros Hnow. script_split i.
+  { simpl. unfold create_tx. destruct ps as [|p ps']; [apply ahist_ext_refl|].
     destruct (feasible force (s_vols s) (p :: ps')); simpl; [|apply ahist_ext_refl].
     destruct (commit_transaction f now s (p :: ps') md ts ref) as [s1 [x|]] eqn:E; simpl.
     + pose proof (commit_some _ _ _ _ _ _ _ _ _ E) as (_ & _ & _ & _ & _ & _ & _ & Hins & _ & _ & _ & _ & _ & Ha & Hh & _).
@@ -244,7 +246,9 @@ Proof.
       assert (Hd : forall d, Some now = Some d -> t < d) by (intros d Ed; inversion Ed; subst; exact Hnow).
       destruct (upsert_fold_ext (f_acc_hist f) now (amd_get amd) (Some (t_ts x)) (Some now) (Some now) t (involved_accounts (t_postings x) amd) (s_accounts s1, s_ahist s1) Hnow Hd Hd) as (ext & A & B).
       destruct (fold_left _ _ (s_accounts s1, s_ahist s1)) as [a1 h1]. cbn [snd s_ahist] in *. exists ext. rewrite A, Hh. split; [reflexivity | exact B].
-    + pose proof (commit_none _ _ _ _ _ _ _ _ E) as (_ & _ & _ & _ & Hh & _). apply ahist_ext_same; exact Hh.
+    + pose proof (commit_none _ _ _ _ _ _ _ _ E) as (_ & _ & _ & _ & Hh & _). apply ahist_ext_same; exact Hh. }
+  destruct i as [ps ts ref md amd force | id force at_eff rmeta | [a|id] md | [a|id] k | ps ts ref md amd force smd samd];
+    [apply Hc | | | | | | script_bullet Hc]; simpl.
   - destruct (find_tx (s_txs s) id) as [x|]; [|apply ahist_ext_refl].
     destruct (t_rev x); [apply ahist_ext_refl|].
     match goal with |- context [match ?c with RCOk => _ | RCInsufficient => _ | RCPanic => _ end] => destruct c end;
